@@ -673,7 +673,7 @@ def _mode():
 def correspond(ctx):
     rng = ctx.rng
     mode = _mode()
-    nfiles = ctx.n(14, 60)
+    nfiles = ctx.n(30, 150)
     for fmt in LOADERS:
         reqs, outs, nontriv, classes = [], [], [], []
         creqs, couts, cnt, ccls = [], [], [], []
@@ -708,7 +708,7 @@ def correspond(ctx):
                     classes.append("cut/big")
                     ncuts += 1
             # corrupted variants
-            for _ in range(ctx.n(25, 80)):
+            for _ in range(ctx.n(40, 150)):
                 cl, kind = corrupt(rng, fmt, lines)
                 if not ascii_ok(cl):
                     continue
@@ -872,7 +872,7 @@ def impl_dump_trace(fmt, frames, valid, boom, kind):
 def corr_dump(ctx):
     rng = ctx.rng
     reqs, outs, classes = [], [], []
-    for _ in range(ctx.n(250, 2500)):
+    for _ in range(ctx.n(600, 8000)):
         fmt = rng.choice(DUMPERS)
         n = rng.choice([0, 1, 1, 2, 3, 4, 6, 10] + ([50] if rng.random() < 0.1 else []))
         frames = [rand_frame(rng, i, fmt) for i in range(n)]
@@ -970,7 +970,7 @@ def impl_fchk(lines, natom):
 def corr_fchk(ctx):
     rng = ctx.rng
     reqs, outs, classes = [], [], []
-    for _ in range(ctx.n(300, 3000)):
+    for _ in range(ctx.n(800, 10000)):
         natom = rng.randint(1, 4)
         npt = rng.choice([1, 1, 2, 3, 5])
         prefix = rng.choice(["Opt point", "IRC point"])
@@ -1150,7 +1150,7 @@ def search(ctx):
     mult = 4 if ctx.escalated else 1
     # 1. dump_many -> load_many == per-frame dump_one -> load_one
     for fmt in DUMPERS:
-        for it in range(ctx.n(120, 1200) * mult):
+        for it in range(ctx.n(300, 4000) * mult):
             n = rng.choice([1, 1, 2, 3, 5, 8] + ([50] if rng.random() < 0.06 else []))
             frames = [rand_frame(rng, i, fmt) for i in range(n)]
             r = check_roundtrip(fmt, frames, rng.random() < 0.5)
@@ -1161,7 +1161,7 @@ def search(ctx):
                                       "frames": [[f.title, f.natom] for f in frames]})
     # 2. pulls from the iterable are counted: lazy, exactly once, file opened after the first check
     for fmt in DUMPERS:
-        for it in range(ctx.n(100, 1000) * mult):
+        for it in range(ctx.n(250, 3000) * mult):
             n = rng.choice([1, 2, 3, 6])
             boom = rng.random() < 0.4
             frames = [rand_frame(rng, i, fmt) for i in range(n)]
@@ -1174,7 +1174,7 @@ def search(ctx):
                          {"kind": "lazy", "fmt": fmt, "n": n, "boom": boom})
     # 3. generated files: every cut, corruption
     for fmt in LOADERS:
-        for it in range(ctx.n(12, 80) * mult):
+        for it in range(ctx.n(30, 250) * mult):
             nf = rng.choice([1, 2, 3, 4, 6])
             lines, meta, frames = make_file(rng, fmt, nf)
             if frames is not None and not all(_in_domain(fmt, f) for f in frames):
@@ -1328,7 +1328,7 @@ def search_fchk_synthetic(ctx):
     """synthetic optimisation / IRC files, also with an inconsistent `Number of geometries` field: the counters of
     the frames must be consistent with the frames actually yielded (never with the announced number)."""
     rng = ctx.rng
-    for it in range(ctx.n(40, 400) * (4 if ctx.escalated else 1)):
+    for it in range(ctx.n(150, 2000) * (4 if ctx.escalated else 1)):
         natom = rng.randint(1, 4)
         npt = rng.choice([1, 2, 3, 4])
         prefix = rng.choice(["Opt point", "IRC point"])
